@@ -707,6 +707,18 @@ func (fc *FCtx) callByContract(c *FuncContract, fn *types.Func, sig *types.Signa
 		rt := sig.Results().At(i).Type()
 		s := fc.U.SortOf(rt)
 		v := Val{T: fc.U.Fresh("r_"+fn.Name(), s), S: s, GoT: rt}
+		if c.Flags["pure"] != "" && sig.Results().Len() == 1 && sig.Recv() == nil && len(c.Modifies) == 0 && len(litArgs) == 0 {
+			// a pure function is a function of its arguments: the same symbol that `F(args)` denotes in specs
+			var sorts []*Sort
+			var ts []string
+			for _, p := range pn {
+				sorts = append(sorts, names[p].S)
+				ts = append(ts, names[p].T)
+			}
+			fname := "pure_" + sanitize(shortPkg(fn.Pkg().Path()+"."+fn.Name()))
+			fc.U.Fun(fname, sorts, s)
+			v.T = app(fname, ts...)
+		}
 		st.assume(fc.U.WF(v))
 		post[rn[i]] = v
 		res = append(res, v)
@@ -955,24 +967,25 @@ var extAliases = map[string]struct {
 	full string
 	ret  string // "Int", "Bool", "Str", or a Go type expression resolved in the spec's package
 }{
-	"Coins.AmountOf": {"(github.com/cosmos/cosmos-sdk/types.Coins).AmountOf", "Int"},
-	"Coins.IsZero":   {"(github.com/cosmos/cosmos-sdk/types.Coins).IsZero", "Bool"},
-	"Coins.IsAllGTE": {"(github.com/cosmos/cosmos-sdk/types.Coins).IsAllGTE", "Bool"},
-	"Coins.IsAllGT":  {"(github.com/cosmos/cosmos-sdk/types.Coins).IsAllGT", "Bool"},
-	"Coins.MulInt":   {"(github.com/cosmos/cosmos-sdk/types.Coins).MulInt", "sdk.Coins"},
-	"Coins.Add":      {"(github.com/cosmos/cosmos-sdk/types.Coins).Add", "sdk.Coins"},
-	"Coins.Sub":      {"(github.com/cosmos/cosmos-sdk/types.Coins).Sub", "sdk.Coins"},
-	"Coins.IsAnyGT":  {"(github.com/cosmos/cosmos-sdk/types.Coins).IsAnyGT", "Bool"},
-	"bytes.Join":     {"bytes.Join", "Bz"},
-	"FieldVal.Equals": {"(*github.com/decred/dcrd/dcrec/secp256k1/v4.FieldVal).Equals", "Bool"},
-	"big.Int.Bytes":  {"(*math/big.Int).Bytes", "Bz"},
-	"PublicKey.X":    {"(*github.com/decred/dcrd/dcrec/secp256k1/v4.PublicKey).X", "Int"},
-	"NewDecCoinsFromCoins": {"github.com/cosmos/cosmos-sdk/types.NewDecCoinsFromCoins", "sdk.DecCoins"},
-	"DecCoins.Sub":   {"(github.com/cosmos/cosmos-sdk/types.DecCoins).Sub", "sdk.DecCoins"},
-	"binary.Varint":  {"encoding/binary.Varint", "Int"},
-	"binary.Varint#1": {"encoding/binary.Varint", "Int"},
+	"Coins.AmountOf":            {"(github.com/cosmos/cosmos-sdk/types.Coins).AmountOf", "Int"},
+	"Coins.IsZero":              {"(github.com/cosmos/cosmos-sdk/types.Coins).IsZero", "Bool"},
+	"Coins.IsAllGTE":            {"(github.com/cosmos/cosmos-sdk/types.Coins).IsAllGTE", "Bool"},
+	"Coins.IsAllGT":             {"(github.com/cosmos/cosmos-sdk/types.Coins).IsAllGT", "Bool"},
+	"Coins.MulInt":              {"(github.com/cosmos/cosmos-sdk/types.Coins).MulInt", "sdk.Coins"},
+	"Coins.Add":                 {"(github.com/cosmos/cosmos-sdk/types.Coins).Add", "sdk.Coins"},
+	"Coins.Sub":                 {"(github.com/cosmos/cosmos-sdk/types.Coins).Sub", "sdk.Coins"},
+	"Coins.IsAnyGT":             {"(github.com/cosmos/cosmos-sdk/types.Coins).IsAnyGT", "Bool"},
+	"bytes.Join":                {"bytes.Join", "Bz"},
+	"FieldVal.Equals":           {"(*github.com/decred/dcrd/dcrec/secp256k1/v4.FieldVal).Equals", "Bool"},
+	"big.Int.Bytes":             {"(*math/big.Int).Bytes", "Bz"},
+	"PublicKey.X":               {"(*github.com/decred/dcrd/dcrec/secp256k1/v4.PublicKey).X", "Int"},
+	"PublicKey.Y":               {"(*github.com/decred/dcrd/dcrec/secp256k1/v4.PublicKey).Y", "Int"},
+	"NewDecCoinsFromCoins":      {"github.com/cosmos/cosmos-sdk/types.NewDecCoinsFromCoins", "sdk.DecCoins"},
+	"DecCoins.Sub":              {"(github.com/cosmos/cosmos-sdk/types.DecCoins).Sub", "sdk.DecCoins"},
+	"binary.Varint":             {"encoding/binary.Varint", "Int"},
+	"binary.Varint#1":           {"encoding/binary.Varint", "Int"},
 	"merkle.HashFromByteSlices": {"github.com/cometbft/cometbft/crypto/merkle.HashFromByteSlices", "Bz"},
-	"ValidatorI.GetTokens": {"(github.com/cosmos/cosmos-sdk/x/staking/types.ValidatorI).GetTokens", "Int"},
+	"ValidatorI.GetTokens":      {"(github.com/cosmos/cosmos-sdk/x/staking/types.ValidatorI).GetTokens", "Int"},
 }
 
 // mapCard declares the cardinality function of a map sort with the point-update axioms (mathematics of
